@@ -346,7 +346,7 @@ class Body:
             return ds[0]
         return None
 
-    def expr(self, o, depth=6):
+    def expr(self, o, depth=6, named_leaf=False):
         """back-trace an operand to an expression tree through single-definition temporaries.
         Nodes: ('const', v, ty) ('fn', path) ('arg', n) ('local', l)  ('place', base_expr, proj)
         ('call', callee_dict, [args], blk) ('bin', op, a, b) ('un', op, a) ('ref', mut, e)
@@ -360,17 +360,20 @@ class Body:
         p = op_place(o)
         if p is None:
             return ("unknown",)
-        return self.place_expr(p, depth)
+        return self.place_expr(p, depth, named_leaf)
 
-    def place_expr(self, p, depth=6):
-        base = self.local_expr(p["l"], depth)
+    def place_expr(self, p, depth=6, named_leaf=False):
+        base = self.local_expr(p["l"], depth, named_leaf)
         if p["p"]:
             return ("place", base, tuple(_projkey(x) for x in p["p"]))
         return base
 
-    def local_expr(self, l, depth=6):
+    def local_expr(self, l, depth=6, named_leaf=False):
         if depth <= 0:
             return ("local", l)
+        if named_leaf and self.lname(l):
+            return ("arg", l) if 1 <= l <= self.argc else ("local", l)
+        nl = named_leaf
         if 1 <= l <= self.argc:
             ds = self.defs().get(l, [])
             if len(ds) == 1:
@@ -387,26 +390,26 @@ class Body:
             return ("arg", l)
         if sd[0] == "call":
             t = self.blocks[sd[1]]["term"]
-            return ("call", t["f"], [self.expr(a, depth - 1) for a in t["args"]], sd[1])
+            return ("call", t["f"], [self.expr(a, depth - 1, nl) for a in t["args"]], sd[1])
         st = self.blocks[sd[1]]["st"][sd[2]]
         rv = st["rv"]
         k = rv["k"]
         if k == "use":
-            return self.expr(rv["o"][0], depth - 1)
+            return self.expr(rv["o"][0], depth - 1, nl)
         if k == "cast":
-            return ("cast", self.expr(rv["o"][0], depth - 1), rv.get("ty", ""))
+            return ("cast", self.expr(rv["o"][0], depth - 1, nl), rv.get("ty", ""))
         if k == "bin":
-            return ("bin", rv["op"], self.expr(rv["o"][0], depth - 1), self.expr(rv["o"][1], depth - 1))
+            return ("bin", rv["op"], self.expr(rv["o"][0], depth - 1, nl), self.expr(rv["o"][1], depth - 1, nl))
         if k == "un":
-            return ("un", rv["op"], self.expr(rv["o"][0], depth - 1))
+            return ("un", rv["op"], self.expr(rv["o"][0], depth - 1, nl))
         if k in ("ref", "rawptr"):
-            return ("ref", rv["mut"], self.place_expr(rv["pl"], depth - 1))
+            return ("ref", rv["mut"], self.place_expr(rv["pl"], depth - 1, nl))
         if k == "discr":
-            return ("discr", self.place_expr(rv["pl"], depth - 1))
+            return ("discr", self.place_expr(rv["pl"], depth - 1, nl))
         if k == "agg":
-            return ("agg", rv["name"], rv["variant"], [self.expr(x, depth - 1) for x in rv["o"]])
+            return ("agg", rv["name"], rv["variant"], [self.expr(x, depth - 1, nl) for x in rv["o"]])
         if k == "repeat":
-            return ("repeat", self.expr(rv["o"][0], depth - 1))
+            return ("repeat", self.expr(rv["o"][0], depth - 1, nl))
         return ("other", rv.get("dbg", ""))
 
     def calls(self):
